@@ -11,6 +11,8 @@ regenerated on every run —, so the two
 D9 `slices_preserved_keys` was false (country, currency, reinsurance_basis, loss_definition missing).
 -/
 import Bermuda.Lemmas.FrameMatrix
+import Bermuda.Lemmas.FrameLongIncr
+import Bermuda.Lemmas.FrameMatrixIndex
 namespace Bermuda.Properties.C14
 open Bermuda Bermuda.Frame Bermuda.Spec.C14
 
@@ -220,6 +222,23 @@ theorem fromMatrix_toMatrix_inferred {t : List Cell} {ix : MatrixIndex}
   simp only [hne, hm, hs, Bool.not_true, Bool.false_eq_true, if_false, hix, Except.bind]
   exact Frame.fromMatrix_toMatrixWith h
 
+/-- **fromWide_toWide_incremental** (`WFwideIncr`: as `WFwide` but every cell an `IncrementalCell`
+with scalar values). The wide table has one row per cell with a `prev_evaluation_date` column, and
+the reader makes one `IncrementalCell` per row: the same cells come back, previous evaluation dates
+(hence the basis) included, values as 0-d float arrays (compared as their scalar). -/
+theorem fromWide_toWide_incremental {t : List Cell} {D L : List String} (h : WFwideIncr t D L) :
+    okAnd (fun out => wideSpec t out && slicesSpec false t out)
+      ((toWideRows t).bind fun tb => fromWideRows tb (allFields t) D L) = true :=
+  Frame.fromWide_toWide_incremental h
+
+/-- **fromLong_toLong_incremental** (`WFlongIncr`: as `WFlong` but every cell an `IncrementalCell` with
+scalar values). One row per cell and field; reading adds each row's field to the cell at the row's
+coordinates (previous evaluation date included); loss details come back as details. -/
+theorem fromLong_toLong_incremental {t : List Cell} {DK LK : List String} (h : WFlongIncr t DK LK) :
+    okAnd (fun out => longSpec t out && slicesSpec true t out)
+      ((toLongRows t).bind fun tb => fromLongRows tb []) = true :=
+  Frame.fromLong_toLong_incremental h
+
 /-- `WFwide` is satisfiable: two slices that differ only in `country`, sampled cells -/
 theorem wfwide_example : WFwide ex ["coverage"] [] where
   ne := by decide
@@ -289,29 +308,65 @@ theorem regular_example : RegularSingle exQ "paid_loss" 3 {} where
     · exact ⟨rfl, rfl, by decide +kernel, ⟨_, 7, rfl, rfl⟩, by decide, rfl, by decide, by decide +kernel, by decide, by decide⟩
 
 
-/-! ### statements not proved yet (the correspondence checks them on every run) -/
+/-! ### the inferred matrix index -/
 
--- OPEN fromWide_toWide_incremental
---   theorem fromWide_toWide_incremental {t : List Cell} {D L : List String} (h : WFwideIncr t D L) :
---     okAnd (fun out => wideSpec t out && slicesSpec false t out)
---       ((toWideRows t).bind fun tb => fromWideRows tb (allFields t) D L) = true
---   (incremental triangles with scalar values: the table has a `prev_evaluation_date` column and the reader
---    makes one IncrementalCell per ROW, no grouping; the proof is `fromWide_toWide` without the block
---    step but with a four-column base dict)
+/-- **matrixIndex_onGrid**: the index INFERRED by `MatrixIndex.from_triangle` — origins the smallest
+period start and the smallest development lag, resolutions the gcd of the differences of the sorted
+distinct period boundaries and of the sorted distinct evaluation months — puts the triangle on its
+grid, for a strictly sorted cumulative triangle of month-aligned cells (`MonthCell`) whose periods are
+all `e` months long with starts a multiple of `e` months apart (`Contiguous t e`: contiguous periods,
+or gaps of whole periods) and whose development lags are congruent modulo the inferred step
+`min(exp, dev)`. The inference finds `expResolution = e`. With gaps that are not multiples of the
+period length, or a holey triangle whose remaining lags are not congruent modulo the step, the
+statement is false and the Matrix form cannot hold the triangle (notes/agents/c07c14.md). -/
+theorem matrixIndex_onGrid {t : List Cell} {ix : MatrixIndex} {e : Int} (hne : t ≠ [])
+    (hsorted : t.Pairwise (fun a b => Cell.cmp a b = .lt)) (hkinds : kindsConsistent t = true)
+    (hcell : ∀ c ∈ t, MonthCell c) (hc : Contiguous t e)
+    (hix : MatrixIndex.ofTriangle t = .ok ix)
+    (hk : ∀ a ∈ t, ∀ b ∈ t, devSpacing ix ∣ lagOf b - lagOf a) : OnGrid t ix :=
+  Frame.matrixIndex_onGrid hne hsorted hkinds hcell hc hix hk
 
--- OPEN fromLong_toLong_incremental
---   theorem fromLong_toLong_incremental {t : List Cell} {DK LK : List String} (h : WFlongIncr t DK LK) :
---     okAnd (fun out => longSpec t out && slicesSpec true t out)
---       ((toLongRows t).bind fun tb => fromLongRows tb []) = true
---   (incremental triangles with scalar values: one row per cell and field, no grouping, 0-d arrays)
+/-- the gcd inference returns the common period length -/
+theorem periodResolution_contiguous {t : List Cell} {e r : Int} (hne : t ≠ []) (hc : Contiguous t e)
+    (h : Frame.periodResolution t = some r) : r = e :=
+  Frame.periodResolution_contiguous hne hc h
 
--- OPEN matrixIndex_onGrid
---   theorem matrixIndex_onGrid {t : List Cell} {ix : MatrixIndex} (hm : isMonthly t = true)
---     (hs : isSemiRegular t = true) (hix : MatrixIndex.ofTriangle t = .ok ix) (hc : cumulative, strictly sorted …)
---     (hcontig : the periods are contiguous and the lags congruent modulo min(exp, dev)) : OnGrid t ix
---   (the index INFERRED by `MatrixIndex.from_triangle` — gcd of the differences of period boundaries and of
---    evaluation months — puts the triangle on its grid. With gaps that are not multiples of the period length,
---    or a holey triangle whose remaining lags are not congruent modulo the step, this is false and the Matrix
---    form cannot hold the triangle: see notes/agents/c07c14.md. `fromMatrix_toMatrix` takes `OnGrid` as hypothesis.)
+/-- the lag condition holds by itself when one inferred resolution divides the other (yearly periods
+seen quarterly, quarterly periods seen quarterly or yearly, …) -/
+theorem matrixIndex_lags_of_dvd {t : List Cell} {ix : MatrixIndex} {e : Int} (hne : t ≠ [])
+    (hc : Contiguous t e) (hix : MatrixIndex.ofTriangle t = .ok ix)
+    (hd : ix.devResolution ∣ ix.expResolution ∨ ix.expResolution ∣ ix.devResolution) :
+    ∀ a ∈ t, ∀ b ∈ t, devSpacing ix ∣ lagOf b - lagOf a :=
+  Frame.lags_congruent_of_dvd hne hc hix hd
+
+/-- **fromMatrix_toMatrix** for the default call `triangle_to_matrix(tri)` / `matrix_to_triangle`,
+without a grid hypothesis: the inferred index is on the grid by `matrixIndex_onGrid` -/
+theorem fromMatrix_toMatrix_contiguous {t : List Cell} {ix : MatrixIndex} {e : Int} (hne : t ≠ [])
+    (hsorted : t.Pairwise (fun a b => Cell.cmp a b = .lt)) (hkinds : kindsConsistent t = true)
+    (hcell : ∀ c ∈ t, MonthCell c) (hc : Contiguous t e)
+    (hm : isMonthly t = true) (hs : isSemiRegular t = true)
+    (hix : MatrixIndex.ofTriangle t = .ok ix)
+    (hd : ix.devResolution ∣ ix.expResolution ∨ ix.expResolution ∣ ix.devResolution) :
+    okAnd (backSpec t) ((toMatrix t).bind fromMatrix) = true :=
+  fromMatrix_toMatrix_inferred hm hs hix
+    (matrixIndex_onGrid hne hsorted hkinds hcell hc hix (matrixIndex_lags_of_dvd hne hc hix hd))
+
+/-- `Contiguous` and `MonthCell` are satisfiable (the quarterly triangle above) -/
+theorem contiguous_example : Contiguous exQ 3 ∧ ∀ c ∈ exQ, MonthCell c := by
+  refine ⟨⟨by decide, ?_, ?_⟩, ?_⟩
+  · intro c hc
+    simp only [exQ, List.mem_cons, List.not_mem_nil, or_false] at hc
+    rcases hc with rfl | rfl | rfl <;> decide
+  · intro a ha b hb
+    simp only [exQ, List.mem_cons, List.not_mem_nil, or_false] at ha hb
+    rcases ha with rfl | rfl | rfl <;> rcases hb with rfl | rfl | rfl <;> decide
+  · intro c hc
+    simp only [exQ, List.mem_cons, List.not_mem_nil, or_false] at hc
+    rcases hc with rfl | rfl | rfl
+    all_goals
+      exact { notInc := by decide, prev := rfl, dates := by decide +kernel, canon := by decide +kernel,
+              psv := by decide, ps1 := rfl, pev := by decide, pee := by decide, evv := by decide,
+              eve := by decide, vals := by intro kv hkv; simp [qCell] at hkv; subst hkv; rfl,
+              nodup := by decide, vne := by simp [qCell] }
 
 end Bermuda.Properties.C14
